@@ -139,7 +139,13 @@ fn check_cyclic_dependencies(definitions: &Definitions) -> Result<()> {
   for decision_service in definitions.decision_services() {
     if let Some(id) = decision_service.id() {
       let targets = edges.entry(id.clone()).or_default();
-      for href in decision_service.encapsulated_decisions().iter().chain(decision_service.output_decisions()) {
+      // the evaluator of a decision service evaluates its input decisions too
+      for href in decision_service
+        .input_decisions()
+        .iter()
+        .chain(decision_service.encapsulated_decisions())
+        .chain(decision_service.output_decisions())
+      {
         targets.push(href.into());
       }
     }
